@@ -159,6 +159,13 @@ pub fn alphabet(root_uid: bool) -> Vec<Op> {
         }
         ops.push(Op::AppendLine(s(p), s("")));
         ops.push(Op::AppendLine(s(p), s("x\n")));
+        // handle shapes: a handle that never receives a byte (dropped at once, or flushed after an empty write)
+        // and one that writes less than the file already holds: a write handle still replaces the content
+        ops.push(Op::WriteHandle(s(p), vec![], vec![]));
+        ops.push(Op::WriteHandle(s(p), vec![vec![]], vec![true]));
+        ops.push(Op::WriteHandle(s(p), vec![vec![], b"s".to_vec()], vec![true, false]));
+        ops.push(Op::AppendHandle(s(p), vec![], vec![]));
+        ops.push(Op::AppendHandle(s(p), vec![vec![]], vec![true]));
     }
     for a in &ns {
         for b in &ns {
